@@ -949,6 +949,9 @@ class Ev:
     def canon_call(self, callee: P, args, kwargs, node) -> P:
         ca = callee.as_atom()
         name = ca[1] if ca and ca[0] == "name" else None
+        if name == "dict" and not args and kwargs:
+            # dict(a=1, b=2) is the literal {"a": 1, "b": 2}
+            return P.atom(("dict", tuple((P.atom(("str", k)), v) for k, v in kwargs)))
         if name is not None:
             canon = _CANON_CALL.get(name)
             if canon and not kwargs:
